@@ -241,9 +241,20 @@ def judge(ctx, case):
             rq["via"] = case["via"]
             if "cuts" in case:
                 rq["cuts"] = case["cuts"]
+        if not big:
+            rq["extras"] = True
         r = ctx.call(rq)
         if "ok" in r:
             judge_script(ctx, case, raw, True, bytes.fromhex(r["ok"]["bytes"]), r["ok"]["tokens"], "script")
+            if r["ok"]["bytes"] == case["hex"] and "static_bytes_eq" in r["ok"]:
+                # the same element list through every other serialising / rebuilding entry point
+                ctx.ev()
+                ctx.hit("other_serialisers")
+                for fld, what in (("static_bytes_eq", "Script::script_bits_to_bytes(to_script_bits())"), ("from_bits_eq", "from_script_bits(to_script_bits()).to_bytes()"), ("push_array_eq", "an empty script extended with push_array(to_script_bits())"), ("push_each_eq", "an empty script extended element by element with push()"), ("reparse_eq", "from_bytes(to_bytes()).to_bytes()")):
+                    if not r["ok"][fld]:
+                        ctx.viol("%s differs from to_bytes() of the parsed script" % what, {"input": case["hex"][:300]})
+                if r["ok"]["len"] != len(raw) or not r["ok"]["hex_eq"]:
+                    ctx.viol("get_script_length / to_hex disagree with to_bytes() of the parsed script", {"input": case["hex"][:300], "len": r["ok"]["len"]})
         elif "err" in r:
             judge_script(ctx, case, raw, False, None, None, "script")
         else:
